@@ -11,7 +11,7 @@ import (
 )
 
 var defaultKinds = []string{"idx", "slice", "div0", "neglen", "alloc-cap", "assert-type", "negshift", "nil-map",
-	"pre", "post", "inv-init", "inv-pres", "decreases", "lemma", "panic-call", "spec"}
+	"pre", "post", "inv-init", "inv-pres", "decreases", "lemma", "panic-call", "spec", "frame"}
 
 type FuncResult struct {
 	Func    string
@@ -55,6 +55,7 @@ func (e *Env) verifyFuncWith(fn *ssa.Function, extraKinds []string, auto map[*ss
 	}
 	ft.c.Preamble = append(ft.c.Preamble, e.smtPre...)
 	con := e.contractOf(fn)
+	ft.topCon = con
 	if con != nil {
 		res.HasContract = true
 		for _, k := range con.Kinds {
@@ -74,7 +75,23 @@ func (e *Env) verifyFuncWith(fn *ssa.Function, extraKinds []string, auto map[*ss
 		fr.vals[p] = v
 		fr.args = append(fr.args, v)
 		for i, l := range leavesOf(p.Type()) {
-			res.Params = append(res.Params, ModelVar{Label: p.Name() + l.Path, Term: v.L[i]})
+			res.Params = append(res.Params, ModelVar{Label: p.Name() + l.Path, Term: v.L[i], Needs: []string{v.L[i].T}})
+		}
+		// element values of integer slices / bytes of strings (first 48) for replay
+		if isSlice(p.Type()) {
+			if w, _, ok := isIntType(sliceElem(p.Type())); ok {
+				comp := "E:" + typeKey(sliceElem(p.Type()))
+				m := ft.memGet(mem, comp, SArr(SInt, SArr(SIdx, SBV(w))))
+				for k := 0; k < 48; k++ {
+					t := mkSelect(mkSelect(m, v.sRef()), app(SIdx, "bvadd", v.sOff(), idxInt(int64(k))))
+					res.Params = append(res.Params, ModelVar{Label: fmt.Sprintf("%s[%d]", p.Name(), k), Term: t, Needs: []string{m.T, v.sRef().T, v.sOff().T}})
+				}
+			}
+		} else if isString(p.Type()) {
+			for k := 0; k < 48; k++ {
+				t := mkSelect(v.strArr(), app(SIdx, "bvadd", v.strOff(), idxInt(int64(k))))
+				res.Params = append(res.Params, ModelVar{Label: fmt.Sprintf("%s[%d]", p.Name(), k), Term: t, Needs: []string{v.strArr().T, v.strOff().T}})
+			}
 		}
 	}
 	for _, fv := range fn.FreeVars {
@@ -95,6 +112,17 @@ func (e *Env) verifyFuncWith(fn *ssa.Function, extraKinds []string, auto map[*ss
 				return res
 			}
 			pres = append(pres, t)
+		}
+		for _, a := range con.Assigns {
+			if mentionsResult(a.E) {
+				continue // result locations are fresh or covered by parameter items
+			}
+			it, err := sc.evalAssignItem(a)
+			if err != nil {
+				res.Fatal = fmt.Sprintf("%s:%d: %v", a.File, a.Line, err)
+				return res
+			}
+			ft.assignItems = append(ft.assignItems, it)
 		}
 		pc = ft.c.Define("pre", mkAnd(pres...))
 		// vacuity guard: the precondition must be satisfiable
@@ -140,10 +168,10 @@ func (fr *frame) obligeAt(hyp Term, kind, text string, pos token.Pos, goal Term)
 	if !ft.kinds[kind] && !ft.kinds["*"] {
 		return
 	}
-	base := fmt.Sprintf("%s#%s#%s", funcName(ft.fn), kind, text)
+	base := fmt.Sprintf("%s#%s#%s", ft.fname(), kind, text)
 	k := ft.names[base]
 	ft.names[base] = k + 1
-	ft.obs = append(ft.obs, &Oblig{Name: fmt.Sprintf("%s#%d", base, k), Kind: kind, Func: funcName(ft.fn), Text: text,
+	ft.obs = append(ft.obs, &Oblig{Name: fmt.Sprintf("%s#%d", base, k), Kind: kind, Func: ft.fname(), Text: text,
 		Pos: ft.e.pos(pos), Hyp: hyp, Goal: goal})
 }
 
@@ -175,6 +203,20 @@ func (fr *frame) postScope(fn *ssa.Function, con *Contract, results []*Val, mem,
 		}
 	}
 	return sc
+}
+
+// resultBase: the identifier at the root of a location expression, if it is a result name.
+func resultBase(e *SExpr) *SExpr {
+	for e != nil {
+		if e.Op == "id" {
+			return e
+		}
+		if len(e.Args) == 0 {
+			return nil
+		}
+		e = e.Args[0]
+	}
+	return nil
 }
 
 func fnPkg(fn *ssa.Function) *types.Package {
@@ -209,7 +251,7 @@ func (fr *frame) checkInvariants(li *loopInfo, hyp Term, mem *Mem, over map[*ssa
 				continue
 			}
 			if t, ok := fr.autoTerm(a, over); ok {
-				fr.ft.obs = append(fr.ft.obs, &Oblig{Name: funcName(fr.ft.fn) + "#" + ak + "#" + a.id, Kind: ak, Func: funcName(fr.ft.fn), Text: a.id, Hyp: hyp, Goal: t})
+				fr.ft.obs = append(fr.ft.obs, &Oblig{Name: fr.ft.fname() + "#" + ak + "#" + a.id, Kind: ak, Func: fr.ft.fname(), Text: a.id, Hyp: hyp, Goal: t})
 			} else {
 				a.dead = true
 			}
@@ -280,12 +322,62 @@ func (fr *frame) callByContract(con *Contract, callee *ssa.Function, c *ssa.Call
 		}
 		fr.oblige("pre", fmt.Sprintf("%s: %s", callee.Name(), shortText(r.Src)), pos, t)
 	}
-	fr.havocCall(c)
-	// results
 	var results []*Val
 	rs := callee.Signature.Results()
-	for i := 0; i < rs.Len(); i++ {
-		results = append(results, ft.freshVal(fmt.Sprintf("r$%s$%d", callee.Name(), i), rs.At(i).Type()))
+	if con.HasAssigns {
+		var items []*assignItem
+		for _, a := range con.Assigns {
+			if mentionsResult(a.E) {
+				continue
+			}
+			it, err := scPre.evalAssignItem(a)
+			if err != nil {
+				ft.fatal = fmt.Sprintf("%s:%d: %v", a.File, a.Line, err)
+				return nil
+			}
+			items = append(items, it)
+			// the caller's own frame must allow what the callee may write
+			var cs []string
+			for c := range it.comps {
+				cs = append(cs, c)
+			}
+			sort.Strings(cs)
+			fr.frameCheck(cs, it.ref, fmt.Sprintf("%s assigns %s", callee.Name(), a.Src), pos)
+		}
+		fr.applyAssigns(items)
+		for i := 0; i < rs.Len(); i++ {
+			r := ft.freshVal(fmt.Sprintf("r$%s$%d", callee.Name(), i), rs.At(i).Type())
+			results = append(results, r)
+		}
+		// result-based items: the result designates memory allocated by the callee
+		freshened := map[string]bool{}
+		for _, a := range con.Assigns {
+			if !mentionsResult(a.E) {
+				continue
+			}
+			scR := fr.postScope(callee, con, results, fr.cur.mem, pre, args)
+			// make the result reference fresh (or nil)
+			if base := resultBase(a.E); base != nil {
+				if rv, ok := scR.vars[base.Name]; ok && rv.v != nil && len(rv.v.L) > 0 && rv.v.L[0].S == SInt {
+					if _, isSym := ft.c.decls[rv.v.L[0].T]; isSym && !freshened[rv.v.L[0].T] {
+						freshened[rv.v.L[0].T] = true
+						isNil := ft.c.Fresh("resnil", SBool)
+						ft.c.Assume(rv.v.L[0], mkEq(rv.v.L[0], mkIte(isNil, intConst(0), ft.newRef())))
+					}
+				}
+			}
+			it, err := scR.evalAssignItem(a)
+			if err != nil {
+				ft.fatal = fmt.Sprintf("%s:%d: %v", a.File, a.Line, err)
+				return nil
+			}
+			fr.applyAssigns([]*assignItem{it})
+		}
+	} else {
+		fr.havocCall(c)
+		for i := 0; i < rs.Len(); i++ {
+			results = append(results, ft.freshVal(fmt.Sprintf("r$%s$%d", callee.Name(), i), rs.At(i).Type()))
+		}
 	}
 	sc := fr.postScope(callee, con, results, fr.cur.mem, pre, args)
 	for _, en := range con.Ensures {
